@@ -1,4 +1,5 @@
 import MV.Props.C18
+import MV.Model.SharedRestart
 /-!
 # C18 — recorded finding (repaired by /repo commit d82e98b)
 
@@ -51,5 +52,16 @@ theorem C18_range_fails_before_fix :
   have := h witness 1 2 D (by decide) (by decide) (by unfold Stops; decide)
   rw [show (fin ((1:Nat):Int) 2) = fin 1 2 from rfl, old_code_negative] at this
   exact absurd this (by decide)
+
+/-! ## second finding (repaired by /repo commit 352a74d): limit 0 = unlimited for `Shared.runtimeError`,
+but "no retries" for the back-off.  With `WithRestartInterval` and `WithConsecutiveRestartLimit(0)` every
+failed restart is retried (`retries 0 count`), and the old closure answered the stop signal `-1`, which
+`time.AfterFunc` turns into "at once": the restarts ran back-to-back without any back-off. -/
+
+open MV.Model.SharedRestart in
+theorem shared_limit_zero_stop_signal_before_fix :
+    retries 0 1 = true ∧
+    delayLegacy { limit := 0, interval := .backoff 100000000 3000000000 } 1 (fin 1 2) = some (-1) ∧
+    delay { limit := 0, interval := .backoff 100000000 3000000000 } 1 (fin 1 2) = some 200000000 := by decide
 
 end MV.Findings.C18
